@@ -3,6 +3,7 @@ package main
 import (
 	"encoding/json"
 	"fmt"
+	"math/rand"
 
 	"vharness/internal/abs"
 	"vharness/internal/csvx"
@@ -56,6 +57,37 @@ func csvxDriver(args []string) (*Summary, error) {
 	})
 	if err != nil {
 		return nil, err
+	}
+	// large journals (hundreds of trips): sizes the case pools do not reach
+	r := rand.New(rand.NewSource(*fl.seed))
+	for i := 0; i < *fl.gen; i++ {
+		var c csvx.Case
+		nTrips := 257 + r.Intn(300)
+		for t := 0; t < nTrips; t++ {
+			e := jrn.Entry{Uid: jrn.Uid{Start: 3600 + 60*t, Sfx: t % 6}, Pfx: 1 + t%3, Sfx: t % 6, Route: t % 5, Dir: t % 3, Start: 3600 + 60*t, VehId: t % 4,
+				Assigned: t%4 != 0, LastObs: 100 + t, Marked: abs.None[int](), NUpd: t % 7, NChg: t%3 - 1, NRew: -1}
+			if t%5 == 0 {
+				e.Marked = abs.Some(200 + t)
+			}
+			for k := 0; k < t%4; k++ {
+				st := jrn.St{Stop: 1 + k, Arr: abs.None[int](), Dep: abs.None[int](), Track: abs.None[int](), LastObs: 50 + k, Marked: abs.None[int]()}
+				if (t+k)%2 == 0 {
+					st.Arr = abs.Some(1000 + t + k)
+				}
+				if (t+k)%3 == 0 {
+					st.Dep, st.Track = abs.Some(1100+t+k), abs.Some(1+k)
+				}
+				e.Sts = append(e.Sts, st)
+			}
+			c.Journal = append(c.Journal, e)
+		}
+		id := fmt.Sprintf("gen-%d-%d", *fl.seed, i)
+		inputs.Write(map[string]any{"case": id, "input": map[string]any{"generated_journal_with_trips": nTrips}})
+		for _, cr := range csvx.Run(id, c, w) {
+			s.Crashes = append(s.Crashes, cr)
+		}
+		s.Cases++
+		s.Counters["large_journals"]++
 	}
 	if *histories != "" {
 		h := 0
